@@ -332,24 +332,36 @@ fn uniformity_jobs() -> Vec<Job> {
                         distinct.sort_unstable();
                         distinct.dedup();
                         let mut counts = vec![0u64; distinct.len()];
-                        for _ in 0..trials {
+                        // successive samples are independent: disjoint pairs (2t, 2t+1) agree with probability sum p_i^2
+                        let (mut previous, mut same_pairs, mut pairs) = (None::<usize>, 0u64, 0u64);
+                        for t in 0..trials {
                             match guarded(|| sample_flavour(flavour, &items, &mut rng)) {
                                 Ok(Some(Built::Sample { value, .. })) => match distinct.iter().position(|d| *d == value) {
-                                    Some(i) => counts[i] += 1,
+                                    Some(i) => {
+                                        counts[i] += 1;
+                                        if t % 2 == 1 {
+                                            pairs += 1;
+                                            same_pairs += u64::from(previous == Some(i));
+                                        }
+                                        previous = Some(i);
+                                    }
                                     None => return Err(Fail::new("choice/not-a-member", format!("{name}: returned {value}"))),
                                 },
                                 Ok(_) => return Err(Fail::new("choice/spurious-empty-error", format!("{name}: rejected"))),
                                 Err(p) => return Err(Fail::new("choice/panic", format!("{name}: {p}"))),
                             }
                         }
-                        Ok(distinct
+                        let mut stats: Vec<Stat> = distinct
                             .iter()
                             .enumerate()
                             .map(|(i, v)| {
                                 let mult = members.iter().filter(|m| *m == v).count();
                                 Stat::new("choice/not-uniform", format!("{name}: value {v} chosen"), counts[i], trials, mult as f64 / members.len() as f64)
                             })
-                            .collect())
+                            .collect();
+                        let p_same: f64 = distinct.iter().map(|v| (members.iter().filter(|m| *m == v).count() as f64 / members.len() as f64).powi(2)).sum();
+                        stats.push(Stat::new("choice/successive-samples-not-independent", format!("{name}: two successive samples are the same value"), same_pairs, pairs, p_same.min(1.0)));
+                        Ok(stats)
                     }),
                 });
             }
